@@ -88,9 +88,12 @@ def docToAst (doc : Doc) : Option Document := (doc.mapM defOf).map fun ds => ⟨
 def parseSdlText (text : String) : Option Document :=
   Parse.parseText { noLocation := true, allowTypeSystem := true } (T text)
 
+/-- the schema with its lists in the order the printer writes them -/
+def printOrder (s : SchemaD) : SchemaD :=
+  { s with directives := sortBy (·.name) s.directives, types := sortBy (·.name) s.types }
+
 /-- the document `to_string` denotes, in the order the printer writes it -/
-def printedDoc (s : SchemaD) : Doc :=
-  schemaToDoc { s with directives := sortBy (·.name) s.directives, types := sortBy (·.name) s.types }
+def printedDoc (s : SchemaD) : Doc := schemaToDoc (printOrder s)
 
 
 /-- the same for the text of the total model -/
@@ -142,7 +145,7 @@ def descTextOK (indentLen : Nat) (d : String) : Bool :=
   let first := lines.headD []
   let oneLine := lines.length == 1 && first.length < 70 && !(first.getLast? == some 34)
   let lead := first.length > (SdlPrintT.lstrip first).length
-  !t.isEmpty && t.all (fun c => (32 ≤ c || c == 9 || c == 10)) &&
+  !d.isEmpty && !t.isEmpty && t.all (fun c => (32 ≤ c || c == 9 || c == 10)) &&
   lines.all (fun l => l.length ≤ 120 - indentLen) &&
   !lineBlank first && !lineBlank (lines.getLastD []) &&
   (if oneLine then !(first.getLast? == some 92)
@@ -150,7 +153,7 @@ def descTextOK (indentLen : Nat) (d : String) : Bool :=
    else minIndentZero lines)
 
 def descOKT (indentLen : Nat) (d : Option String) : Bool :=
-  match d with | some x => descTextOK indentLen x | none => true
+  match d with | some x => x.isEmpty || descTextOK indentLen x | none => true
 
 def argOKT (s : SchemaD) (indentLen : Nat) (a : ArgD) : Bool :=
   nameOK a.name && tyOK a.type && descOKT indentLen a.desc &&
@@ -178,15 +181,23 @@ def directiveOKT (s : SchemaD) (w : Nat) (d : DirectiveD) : Bool :=
 
 def rootOKT (r : Option String) : Bool := match r with | some n => nameOK n | none => true
 
+/-- the names of the types are pairwise distinct and so are the names of the directives (`schema.types` and
+    `schema.directives` are dictionaries) -/
+def namesUnique (s : SchemaD) : Bool :=
+  decide (s.types.map (·.name)).Nodup && decide (s.directives.map (·.name)).Nodup
+
 /-- **printTextWF** — the lexical conditions under which the printed text denotes the schema: the indent is made of
     spaces / tabs and descriptions are printed; every name is a `Name` lexeme (enum values not `true`/`false`/`null`,
     directive locations from the table); type expressions have no `!!`; printed default values exist and consist of
     number / name lexemes; object, interface, enum, input and union types have at least one member; every description
-    survives the printer's layout at its depth (`descTextOK`). -/
+    survives the printer's layout at its depth (`descTextOK`); the text is not empty and a printed `schema` block names at
+    least one root; type names and directive names are pairwise distinct (`namesUnique`: used only for the independence
+    of the order of the lists). -/
 def printTextWF (o : SdlPrintT.OptsT) (s : SchemaD) : Bool :=
   o.descriptions && o.indent.all (fun c => c == 32 || c == 9) &&
   s.types.all (typeOKT s o.indent.length) && s.directives.all (directiveOKT s o.indent.length) &&
   rootOKT s.query && rootOKT s.mutation && rootOKT s.subscription &&
-  (!s.types.isEmpty || !s.directives.isEmpty || SdlPrint.needsSchemaBlock s)
+  (!s.types.isEmpty || !s.directives.isEmpty || SdlPrint.needsSchemaBlock s) &&
+  (!SdlPrint.needsSchemaBlock s || !(SdlPrint.rootOps s).isEmpty) && namesUnique s
 
 end PyGql.SdlText
